@@ -249,7 +249,9 @@ pub fn expected_read_adapt(wr: &Record, rr: &Record, last: &Record, w: usize, r:
     let mut classes = Vec::new();
     let mut out = Vec::new();
     // removed (or made transient) by the writer's version
-    let removed_by_w = |name: &str| wr.steps.iter().any(|s| matches!(s, Step::Removed { name: n } | Step::MadeTransient { name: n } if n == name));
+    // (a name that was removed may be added again by a later step: a removal concerns the reader's field only if it
+    // comes after the step that introduced the field as the reader knows it)
+    let removed_by_w = |name: &str| wr.steps.iter().enumerate().any(|(i, s)| matches!(s, Step::Removed { name: n } | Step::MadeTransient { name: n } if n == name) && i + 1 > rr.chunk_of(name));
     // a chunk the writer has and the reader does not read
     if wr.steps.len() > rr.steps.len() && wr.steps[rr.steps.len()..].iter().any(|s| matches!(s, Step::Added { .. })) {
         classes.push(ReadClass::SkippedChunk);
@@ -827,6 +829,66 @@ pub fn compiled_batch(seed: u64, n_hist: usize, n_fam: usize) -> Batch {
             histories.push(decls);
             dedup_histories.push(with_dedup);
         }
+    }
+    // names that are removed and added again later (the new field lives in the chunk of its own step; what the header
+    // says about the removed one must not reach it): an optional one, a required one, and one that comes and goes twice
+    {
+        let opt_s = || Ty::Option(a(Ty::Str));
+        let note = || f("note", opt_s());
+        let v: Vec<Vec<Record>> = vec![
+            vec![
+                Record { fields: vec![f("id", Ty::U32), note()], steps: vec![] },
+                Record { fields: vec![f("id", Ty::U32)], steps: vec![Step::Removed { name: "note".into() }] },
+                Record { fields: vec![f("id", Ty::U32), note()], steps: vec![Step::Removed { name: "note".into() }, Step::Added { name: "note".into(), default: Val::None }] },
+                Record {
+                    fields: vec![f("id", Ty::U32), note(), f("extra", Ty::U8)],
+                    steps: vec![Step::Removed { name: "note".into() }, Step::Added { name: "note".into(), default: Val::None }, Step::Added { name: "extra".into(), default: Val::Int(5) }],
+                },
+            ],
+            vec![
+                Record { fields: vec![f("id", Ty::U32), f("n", Ty::U32)], steps: vec![] },
+                Record { fields: vec![f("id", Ty::U32)], steps: vec![Step::Removed { name: "n".into() }] },
+                Record { fields: vec![f("n", Ty::U32), f("id", Ty::U32)], steps: vec![Step::Removed { name: "n".into() }, Step::Added { name: "n".into(), default: Val::Int(0) }] },
+            ],
+            vec![
+                Record { fields: vec![f("k", Ty::Str)], steps: vec![] },
+                Record { fields: vec![f("k", Ty::Str), f("x", Ty::U8)], steps: vec![Step::Added { name: "x".into(), default: Val::Int(1) }] },
+                Record { fields: vec![f("k", Ty::Str)], steps: vec![Step::Added { name: "x".into(), default: Val::Int(1) }, Step::Removed { name: "x".into() }] },
+                Record { fields: vec![f("x", Ty::U8), f("k", Ty::Str)], steps: vec![Step::Added { name: "x".into(), default: Val::Int(1) }, Step::Removed { name: "x".into() }, Step::Added { name: "x".into(), default: Val::Int(2) }] },
+                Record {
+                    fields: vec![f("k", Ty::Str)],
+                    steps: vec![Step::Added { name: "x".into(), default: Val::Int(1) }, Step::Removed { name: "x".into() }, Step::Added { name: "x".into(), default: Val::Int(2) }, Step::Removed { name: "x".into() }],
+                },
+            ],
+        ];
+        for versions in v {
+            let i = histories.len();
+            histories.push(versions.iter().enumerate().map(|(v, rec)| struct_decl(&format!("H{i}V{v}"), rec)).collect());
+            dedup_histories.push(false);
+        }
+    }
+    // records with more fields in one chunk than a signed byte counts (version 0, and with a step so that the fields
+    // go through chunk buffers)
+    {
+        let wide = |n: usize| -> Vec<Field> {
+            (0..n)
+                .map(|i| {
+                    f(&format!("w{i}"), match i % 5 {
+                        0 => Ty::U8,
+                        1 => Ty::Option(a(Ty::U16)),
+                        2 => Ty::Str,
+                        3 => Ty::Bool,
+                        _ => Ty::I64,
+                    })
+                })
+                .collect()
+        };
+        specials.push(struct_decl("WideRec", &Record { fields: wide(130), steps: vec![] }));
+        // linked lists of element types that are neither Eq nor Hash
+        specials.push(struct_decl("FloatList", &Record { fields: vec![f("l", Ty::LinkedList(a(Ty::F64))), f("o", Ty::LinkedList(a(Ty::Option(a(Ty::F64)))))], steps: vec![] }));
+        let mut fs = wide(200);
+        fs.push(f("late", Ty::U8));
+        specials.push(struct_decl("WideRecE", &Record { fields: fs, steps: vec![Step::Added { name: "late".into(), default: Val::Int(3) }] }));
     }
     // tuple-variant histories (no nested declarations, no DeduplicatedString: they are read across versions)
     let mut tuple_histories = Vec::new();
